@@ -299,4 +299,14 @@ theorem onExit_good {R : Type} (s : St R) (e : Entry) (hs : s.started = true) (g
     show s.conc = (cnt (s.live.eraseP (·.id == e.id)) : Int)
     rw [g.conc, hc]
 
+theorem onExitErr_good {R : Type} (s : St R) (e : Entry) (hs : s.started = true) (g : Good s)
+    (hf : s.live.find? (·.id == e.id) = some e) : Good (onExitErr s e) := by
+  unfold onExitErr
+  by_cases hin : e.inbound = true
+  · simp only [hin, if_true]
+    exact onExit_good (record s (evBucket .error e.batch)) e hs ⟨record_goodH s _ hs g.h, g.conc⟩ hf
+  · have hin' : e.inbound = false := by simpa using hin
+    simp only [hin', Bool.false_eq_true, if_false]
+    exact onExit_good s e hs g hf
+
 end Sentinel.System
